@@ -1608,6 +1608,10 @@ impl Universe {
     }
 
     fn log_ev(&self, out: &mut RunOut, thash: &mut u64, ev: &Ev, keep: bool) {
+        // debugging aid (never set by the registered commands): live trace on stderr
+        if std::env::var_os("VERIF_TRACE").is_some() {
+            diag(&ev.render(&out.tids, self.pid));
+        }
         // hash of the normalised event (no pids, no pointers)
         sys::fnv(thash, &[ev.thread as u8]);
         sys::fnv(thash, &ev.nr.to_le_bytes());
